@@ -88,7 +88,7 @@ def run(tier, seed, ck=None):
     if own:
         # the verdicts above are about single calls from the initial package state: histories (observe, scribble on returned slices, mutate, observe) must not change them
         from props import hidden
-        hidden.embed(ck, tier, ('element',), 'C05', 'Equal/IsIdentity')
+        hidden.embed(ck, tier, ('element',), 'C05', 'Equal/IsIdentity', observers=['isid', 'eq'])
     return ck.finish() if own else None
 
 
